@@ -372,94 +372,215 @@ theorem noext_back (scripts langs so lo : List (List Nat × List Nat))
 
 /-! ### the normal form of the reverse lookup over the regenerated tables -/
 
-/-- script tags that share their BCP 47 script with a smaller tag (which is the one that comes back) -/
-def scriptTwins : List (List Nat × List Nat) := [
-  ([98, 110, 103, 50], [98, 101, 110, 103]),  -- 'bng2' -> 'beng'
-  ([100, 101, 118, 97], [100, 101, 118, 50]),  -- 'deva' -> 'dev2'
-  ([103, 117, 106, 114], [103, 106, 114, 50]),  -- 'gujr' -> 'gjr2'
-  ([103, 117, 114, 117], [103, 117, 114, 50]),  -- 'guru' -> 'gur2'
-  ([107, 110, 100, 97], [107, 110, 100, 50]),  -- 'knda' -> 'knd2'
-  ([109, 108, 121, 109], [109, 108, 109, 50]),  -- 'mlym' -> 'mlm2'
-  ([109, 121, 109, 114], [109, 121, 109, 50]),  -- 'mymr' -> 'mym2'
-  ([111, 114, 121, 97], [111, 114, 121, 50]),  -- 'orya' -> 'ory2'
-  ([116, 101, 108, 117], [116, 101, 108, 50]),  -- 'telu' -> 'tel2'
-  ([116, 109, 108, 50], [116, 97, 109, 108])  -- 'tml2' -> 'taml'
-  ]
+/-! Kernel evaluation over the 620-entry language table.  The extractor emits the tables in
+increasing order of the tags; that order is checked here (linear) and gives distinct keys and
+"smallest key with the value = first entry with the value".  Values are compared through an
+injective numeric code (one accelerated `Nat.beq` instead of a list comparison). -/
 
-/-- language tags that share their BCP 47 language with a smaller tag (which is the one that comes back) -/
-def langTwins : List (List Nat × List Nat) := [
-  ([68, 73, 86, 32], [68, 72, 86, 32]),  -- 'DIV ' -> 'DHV '
-  ([72, 89, 69, 48], [72, 89, 69, 32]),  -- 'HYE0' -> 'HYE '
-  ([73, 78, 85, 75], [73, 78, 85, 32]),  -- 'INUK' -> 'INU '
-  ([73, 82, 84, 32], [73, 82, 73, 32]),  -- 'IRT ' -> 'IRI '
-  ([75, 65, 82, 32], [66, 65, 76, 32]),  -- 'KAR ' -> 'BAL '
-  ([75, 71, 69, 32], [75, 65, 84, 32]),  -- 'KGE ' -> 'KAT '
-  ([75, 72, 83, 32], [75, 72, 75, 32]),  -- 'KHS ' -> 'KHK '
-  ([75, 72, 86, 32], [75, 72, 75, 32]),  -- 'KHV ' -> 'KHK '
-  ([77, 67, 82, 32], [76, 67, 82, 32]),  -- 'MCR ' -> 'LCR '
-  ([77, 76, 82, 32], [77, 65, 76, 32]),  -- 'MLR ' -> 'MAL '
-  ([77, 79, 78, 84], [77, 79, 78, 32]),  -- 'MONT' -> 'MON '
-  ([78, 72, 67, 32], [78, 67, 82, 32]),  -- 'NHC ' -> 'NCR '
-  ([78, 76, 68, 32], [70, 76, 69, 32]),  -- 'NLD ' -> 'FLE '
-  ([82, 79, 77, 32], [77, 79, 76, 32]),  -- 'ROM ' -> 'MOL '
-  ([83, 65, 89, 32], [67, 72, 80, 32]),  -- 'SAY ' -> 'CHP '
-  ([84, 67, 82, 32], [68, 67, 82, 32]),  -- 'TCR ' -> 'DCR '
-  ([84, 71, 76, 32], [80, 73, 76, 32]),  -- 'TGL ' -> 'PIL '
-  ([84, 79, 68, 32], [75, 76, 77, 32]),  -- 'TOD ' -> 'KLM '
-  ([89, 67, 82, 32], [67, 82, 69, 32])  -- 'YCR ' -> 'CRE '
-  ]
+def strictSorted : List (List Nat × List Nat) → Bool
+  | [] => true
+  | [p] => !p.1.isEmpty
+  | p :: q :: rest => !p.1.isEmpty && lexLt p.1 q.1 && strictSorted (q :: rest)
 
-/-- the tag that comes back for `tag` when it travels as a BCP 47 tag without `-x-` extension -/
-def nfTag (twins : List (List Nat × List Nat)) (tag : List Nat) : List Nat :=
-  match tagGet twins tag with
-  | some t => t
-  | none => tag
+theorem lexLt_le {a b : List Nat} (h : lexLt a b = true) : lexLe a b = true := by
+  have := lexLe_total a b
+  simp only [lexLt, Bool.not_eq_true'] at h
+  simpa [h] using this
 
-/-- Boolean form of the reverse lookup (fast in the kernel) -/
-def stepRevB (val : List Nat) (cur : List Nat) (p : List Nat × List Nat) : List Nat :=
-  if (p.2 == val && (cur.isEmpty || lexLt p.1 cur)) = true then p.1 else cur
+theorem lexLt_trans {a b c : List Nat} (h1 : lexLt a b = true) (h2 : lexLt b c = true) : lexLt a c = true := by
+  simp only [lexLt, Bool.not_eq_true'] at *
+  cases hca : lexLe c a with
+  | false => rfl
+  | true =>
+    have hab := lexLt_le (a := a) (b := b) (by simp [lexLt, h1])
+    have := lexLe_trans c a b hca hab
+    rw [this] at h2; cases h2
 
-theorem stepRevB_eq (val cur : List Nat) (p : List Nat × List Nat) : stepRevB val cur p = stepRev val cur p := by
-  unfold stepRevB stepRev
-  congr 1
-  simp [List.isEmpty_iff]
+theorem strictSorted_spec : ∀ (tbl : List (List Nat × List Nat)), strictSorted tbl = true →
+    tbl.Pairwise (fun a b => lexLt a.1 b.1 = true) ∧ ∀ p ∈ tbl, p.1 ≠ []
+  | [], _ => ⟨List.Pairwise.nil, fun p hp => by cases hp⟩
+  | [p], h => by
+    simp only [strictSorted, Bool.not_eq_true', List.isEmpty_eq_false_iff] at h
+    exact ⟨List.pairwise_singleton _ _, fun q hq => by simp only [List.mem_singleton] at hq; rw [hq]; exact h⟩
+  | p :: q :: rest, h => by
+    simp only [strictSorted, Bool.and_eq_true, Bool.not_eq_true', List.isEmpty_eq_false_iff] at h
+    obtain ⟨ih1, ih2⟩ := strictSorted_spec (q :: rest) h.2
+    refine ⟨List.pairwise_cons.mpr ⟨?_, ih1⟩, ?_⟩
+    · intro x hx
+      simp only [List.mem_cons] at hx
+      rcases hx with rfl | hx
+      · exact h.1.2
+      · exact lexLt_trans h.1.2 ((List.pairwise_cons.mp ih1).1 x hx)
+    · intro x hx
+      simp only [List.mem_cons] at hx
+      rcases hx with rfl | hx
+      · exact h.1.1
+      · exact ih2 x (by simp only [List.mem_cons]; exact hx)
 
-def revLookupB (order : List (List Nat × List Nat)) (val : List Nat) : List Nat :=
-  order.foldl (stepRevB val) []
+theorem tagTableOK_of_sorted (tbl : List (List Nat × List Nat)) (h : strictSorted tbl = true) :
+    tagTableOK tbl = true := by
+  obtain ⟨hp, hk⟩ := strictSorted_spec tbl h
+  clear h
+  induction tbl with
+  | nil => rfl
+  | cons p t ih =>
+    rw [List.pairwise_cons] at hp
+    simp only [tagTableOK, Bool.and_eq_true, Bool.not_eq_true', List.isEmpty_eq_false_iff, List.any_eq_false]
+    refine ⟨⟨hk p List.mem_cons_self, ?_⟩, ih hp.2 (fun q hq => hk q (List.mem_cons_of_mem _ hq))⟩
+    intro q hq
+    have := hp.1 q hq
+    intro heq
+    have e : q.1 = p.1 := by simpa using heq
+    rw [e] at this
+    simp [lexLt, lexLe_refl] at this
 
-theorem revLookupB_eq (order : List (List Nat × List Nat)) (val : List Nat) :
-    revLookupB order val = revLookup order val := by
-  unfold revLookupB revLookup
-  congr 1
-  funext cur p
-  exact stepRevB_eq val cur p
+/-- first entry with the value -/
+def firstMatch : List (List Nat × List Nat) → List Nat → List Nat
+  | [], _ => []
+  | p :: rest, val => if p.2 = val then p.1 else firstMatch rest val
 
-theorem otScripts_ok : tagTableOK Gen.otScripts = true := by decide +kernel
-theorem otLangs_ok : tagTableOK Gen.otLangs = true := by decide +kernel
+theorem firstMatch_spec (tbl : List (List Nat × List Nat)) (val : List Nat)
+    (hp : tbl.Pairwise (fun a b => lexLt a.1 b.1 = true)) (hk : ∀ p ∈ tbl, p.1 ≠ []) :
+    RevSpec tbl val (firstMatch tbl val) := by
+  induction tbl with
+  | nil => exact Or.inl ⟨rfl, fun p hp => by cases hp⟩
+  | cons p t ih =>
+    rw [List.pairwise_cons] at hp
+    unfold firstMatch
+    by_cases hv : p.2 = val
+    · simp only [hv, if_true]
+      refine Or.inr ⟨hk p List.mem_cons_self, ⟨p, List.mem_cons_self, rfl, hv⟩, ?_⟩
+      intro q hq _
+      simp only [List.mem_cons] at hq
+      rcases hq with rfl | hq
+      · exact lexLe_refl _
+      · exact lexLt_le (hp.1 q hq)
+    · simp only [hv, if_false]
+      rcases ih hp.2 (fun q hq => hk q (List.mem_cons_of_mem _ hq)) with ⟨h0, hno⟩ | ⟨h0, ⟨w, hw, hw1, hw2⟩, hmin⟩
+      · refine Or.inl ⟨h0, ?_⟩
+        intro q hq
+        simp only [List.mem_cons] at hq
+        rcases hq with rfl | hq
+        · exact hv
+        · exact hno q hq
+      · refine Or.inr ⟨h0, ⟨w, List.mem_cons_of_mem _ hw, hw1, hw2⟩, ?_⟩
+        intro q hq hqv
+        simp only [List.mem_cons] at hq
+        rcases hq with rfl | hq
+        · exact absurd hqv hv
+        · exact hmin q hq hqv
 
-theorem otScripts_nfB :
-    (Gen.otScripts.all fun p => revLookupB Gen.otScripts p.2 == nfTag scriptTwins p.1) = true := by
+theorem revLookup_eq_firstMatch (tbl : List (List Nat × List Nat)) (val : List Nat)
+    (hs : strictSorted tbl = true) : revLookup tbl val = firstMatch tbl val := by
+  obtain ⟨hp, hk⟩ := strictSorted_spec tbl hs
+  exact RevSpec_unique tbl tbl val _ _ (fun _ => Iff.rfl) (revLookup_spec tbl val hk)
+    (firstMatch_spec tbl val hp hk)
+
+/-- little-endian base-256 code with a terminating 1: injective on byte strings -/
+def codeR : List Nat → Nat
+  | [] => 1
+  | b :: t => b + 256 * codeR t
+
+theorem codeR_pos (l : List Nat) : 1 ≤ codeR l := by
+  cases l with
+  | nil => exact Nat.le_refl 1
+  | cons b t => simp only [codeR]; have := codeR_pos t; omega
+
+theorem codeR_inj : ∀ (a b : List Nat), (∀ x ∈ a, x < 256) → (∀ x ∈ b, x < 256) → codeR a = codeR b → a = b
+  | [], [], _, _, _ => rfl
+  | [], y :: u, _, _, h => by
+    simp only [codeR] at h; have := codeR_pos u; omega
+  | x :: t, [], _, _, h => by
+    simp only [codeR] at h; have := codeR_pos t; omega
+  | x :: t, y :: u, ha, hb, h => by
+    simp only [codeR] at h
+    have hx := ha x List.mem_cons_self
+    have hy := hb y List.mem_cons_self
+    have h1 : x = y := by omega
+    have h2 : codeR t = codeR u := by omega
+    rw [h1, codeR_inj t u (fun z hz => ha z (List.mem_cons_of_mem _ hz))
+      (fun z hz => hb z (List.mem_cons_of_mem _ hz)) h2]
+
+def firstMatchC : List (List Nat × Nat) → Nat → List Nat
+  | [], _ => []
+  | p :: rest, v =>
+    match Nat.beq p.2 v with
+    | true => p.1
+    | false => firstMatchC rest v
+
+def codedTable (tbl : List (List Nat × List Nat)) : List (List Nat × Nat) := tbl.map fun p => (p.1, codeR p.2)
+
+def bytesB (l : List Nat) : Bool := l.all fun x => Nat.blt x 256
+
+theorem bytesB_sound (l : List Nat) (h : bytesB l = true) : ∀ x ∈ l, x < 256 := by
+  intro x hx
+  have := List.all_eq_true.mp h x hx
+  simpa [Nat.blt_eq] using this
+
+theorem firstMatchC_eq (tbl : List (List Nat × List Nat)) (val : List Nat)
+    (ht : ∀ p ∈ tbl, ∀ x ∈ p.2, x < 256) (hv : ∀ x ∈ val, x < 256) :
+    firstMatchC (codedTable tbl) (codeR val) = firstMatch tbl val := by
+  induction tbl with
+  | nil => rfl
+  | cons p t ih =>
+    simp only [codedTable, List.map_cons, firstMatchC, firstMatch] at ih ⊢
+    have ih' := ih (fun q hq => ht q (List.mem_cons_of_mem _ hq))
+    by_cases hpv : p.2 = val
+    · subst hpv
+      simp only [Nat.beq_refl, if_true]
+    · have : Nat.beq (codeR p.2) (codeR val) = false := by
+        cases hb : Nat.beq (codeR p.2) (codeR val) with
+        | false => rfl
+        | true =>
+          exact absurd (codeR_inj _ _ (ht p List.mem_cons_self) hv (Nat.eq_of_beq_eq_true hb)) hpv
+      simp only [this, hpv, if_false]
+      exact ih'
+
+def checkNF (twins : List (List Nat × List Nat)) (coded : List (List Nat × Nat))
+    (tbl : List (List Nat × List Nat)) : Bool :=
+  tbl.all fun q => q.2.contains 45 || firstMatchC coded (codeR q.2) == nfTag twins q.1
+
+theorem otScripts_sorted : strictSorted Gen.otScripts = true := by decide +kernel
+theorem otLangs_sorted : strictSorted Gen.otLangs = true := by decide +kernel
+theorem otScripts_ok : tagTableOK Gen.otScripts = true := tagTableOK_of_sorted _ otScripts_sorted
+theorem otLangs_ok : tagTableOK Gen.otLangs = true := tagTableOK_of_sorted _ otLangs_sorted
+
+theorem otTables_bytes :
+    (Gen.otScripts.all fun p => bytesB p.2) = true ∧ (Gen.otLangs.all fun p => bytesB p.2) = true := by
+  constructor <;> decide +kernel
+
+theorem otScripts_nfC : checkNF scriptTwins (codedTable Gen.otScripts) Gen.otScripts = true := by
   decide +kernel
 
-theorem otLangs_nfB :
-    (Gen.otLangs.all fun q => q.2.contains 45 || revLookupB Gen.otLangs q.2 == nfTag langTwins q.1) = true := by
+theorem otLangs_nfC : checkNF langTwins (codedTable Gen.otLangs) Gen.otLangs = true := by
   decide +kernel
+
+theorem nf_of_check (twins tbl : List (List Nat × List Nat)) (hs : strictSorted tbl = true)
+    (hb : (tbl.all fun p => bytesB p.2) = true) (hc : checkNF twins (codedTable tbl) tbl = true)
+    (q : List Nat × List Nat) (hq : q ∈ tbl) (hd : q.2.contains 45 = false) :
+    revLookup tbl q.2 = nfTag twins q.1 := by
+  have hbytes : ∀ p ∈ tbl, ∀ x ∈ p.2, x < 256 :=
+    fun p hp => bytesB_sound _ (List.all_eq_true.mp hb p hp)
+  have := List.all_eq_true.mp hc q hq
+  rw [hd, Bool.false_or, firstMatchC_eq tbl q.2 hbytes (hbytes q hq)] at this
+  rw [revLookup_eq_firstMatch tbl q.2 hs]
+  exact eq_of_beq this
 
 /-- every script of the table: the reverse lookup of its BCP 47 value gives the script itself,
 except for the ten scripts listed in `scriptTwins`, which give their smaller twin -/
 theorem otScripts_nf (p : List Nat × List Nat) (hp : p ∈ Gen.otScripts) :
     revLookup Gen.otScripts p.2 = nfTag scriptTwins p.1 := by
-  have := List.all_eq_true.mp otScripts_nfB p hp
-  rw [revLookupB_eq] at this
-  exact eq_of_beq this
+  have hd : p.2.contains 45 = false := by
+    have h : (Gen.otScripts.all fun p => !p.2.contains 45) = true := by decide +kernel
+    have := List.all_eq_true.mp h p hp
+    simpa using this
+  exact nf_of_check scriptTwins Gen.otScripts otScripts_sorted otTables_bytes.1 otScripts_nfC p hp hd
 
 /-- every language whose BCP 47 value is a bare language subtag: the reverse lookup gives the
 language itself, except for the nineteen listed in `langTwins`, which give their smaller twin -/
 theorem otLangs_nf (q : List Nat × List Nat) (hq : q ∈ Gen.otLangs) (hd : q.2.contains 45 = false) :
-    revLookup Gen.otLangs q.2 = nfTag langTwins q.1 := by
-  have := List.all_eq_true.mp otLangs_nfB q hq
-  rw [revLookupB_eq, hd, Bool.false_or] at this
-  exact eq_of_beq this
+    revLookup Gen.otLangs q.2 = nfTag langTwins q.1 :=
+  nf_of_check langTwins Gen.otLangs otLangs_sorted otTables_bytes.2 otLangs_nfC q hq hd
 
 /-- the eight languages whose value is not a bare subtag (never found by the reverse lookup,
 because `tag.Raw()` yields a bare language subtag); `ZHS `, `ZHT ` come back through the special
